@@ -20,6 +20,9 @@ var c02InGen bool
 // generator (corpus lines, --replay) the scenario is also executed again on the real client and the fresh
 // traces are judged as well, so that a replay file reproduces on the current tree.
 func c02Run(c *Case) (string, []Fail) {
+	if c.Kind == 5 {
+		return c02RunAck(c)
+	}
 	scn, trace, remaining, finished, err := c02DecodeCase(c)
 	if err != nil {
 		return "badcase", nil
@@ -223,6 +226,7 @@ func c02Fill(n, v int) []int {
 func c02Gen(g *Gen) {
 	c02InGen = true
 	defer func() { c02InGen = false }()
+	c02GenAck(g)
 	var jobs []*c02Job
 	add := func(kind int, tag string, s *c02Scn) {
 		jobs = append(jobs, &c02Job{kind: kind, scn: s, tag: tag})
